@@ -31,3 +31,18 @@ Theorem C19_moved_not_fresh : forall o i sch e e',
   ev_from e <> None -> ev_kind_of e' = First -> ev_times e <> ev_times e'.
 Proof. exact c19_moved_not_fresh. Qed.
 Print Assumptions C19_moved_not_fresh.
+
+(* the stage order of one cycle and what each planning stage is handed, read off the source text of runOnce on every run
+   (Gen/Consts.v, go/ast): Model/Coordinator.v run_stages / cycle_sst are written for exactly this sequence - gc and
+   recovery and relief work on the in-sync shards, assignment and scaling on all of them, per replica - so a stage that
+   is moved, dropped or pointed at another shard list in Go breaks this obligation (and the differential run) *)
+Theorem C19_stage_order :
+  Gen.Consts.StageOrder.runonce_calls =
+  ["getActive()"; "getShardInfos(shards)"; "changeAbleShardsInfo(shardsInfo)"; "ChangeScale(c.option.MinShard)";
+   "globalScrapeStatus(active,shardsInfo)"; "gcTargets(changeAbleShards,active)"; "recoverOrphanTransfers(changeAbleShards)";
+   "alleviateShards(changeAbleShards)"; "assignNoScrapingTargets(shardsInfo,active,lastGlobalScrapeStatus)";
+   "tryScaleUp(shardsInfo,needSpace)"; "tryScaleDown(shardsInfo)"; "updateScrapingTargets(shardsInfo,active)";
+   "applyShardsInfo(shardsInfo)"; "ChangeScale(scale)"; "updateScrapeStatusShards(shardsInfo,lastGlobalScrapeStatus)";
+   "mergeScrapeStatus(newLastGlobalScrapeStatus,lastGlobalScrapeStatus)"]%string.
+Proof. reflexivity. Qed.
+Print Assumptions C19_stage_order.
